@@ -3,7 +3,12 @@
  * HP_LEMMA 1: P parallel to R (all 2x2 minors 0), R.q = 0, P.R != 0  =>  P.q = 0
  *          2: E q = 0 and P.q = 0  =>  (E - T P') q = 0
  *          3: P.P = 1 and T = E P  =>  |E - T P'|^2 = |E|^2 - T'T   (Pythagoras: explained variances never sum above 100 %)
- *          4: P.P = 1 and T = E P  =>  (E - T P') P = 0 */
+ *          4: P.P = 1 and T = E P  =>  (E - T P') P = 0
+ * PLS (W = weights, U = y-score, E = X):
+ *          5: T = E W, E'T = (T'T) P, T'T != 0  =>  P.W = 1
+ *          6: E'T = (T'T) P  =>  (E - T P')' T = 0            7: T = E W and P.W = 1  =>  (E - T P') W = 0
+ *          8: F'T = 0 and T2 = F W2  =>  T.T2 = 0   (scores of later latent variables are orthogonal to T; F = deflated X)
+ *          9: F W = 0 and W2 parallel to F'U  =>  W.W2 = 0 (weights of later latent variables are orthogonal to W) */
 #include "lsv.h"
 void harness(void){
   double P[HP_M], R[HP_M], Q[HP_M], E[HP_N][HP_M], T[HP_N];
@@ -26,6 +31,34 @@ void harness(void){
   CHECK_EQ(r2, e2-tt, "|E - T P'|^2 = |E|^2 - T'T");
 #else
   for(size_t i=0;i<HP_N;i++){ double s=0; for(size_t j=0;j<HP_M;j++) s+=(E[i][j]-T[i]*P[j])*P[j]; CHECK_EQ(s, 0.0, "(E - T P') P = 0"); }
+#endif
+#elif HP_LEMMA>=5
+  double W[HP_M], W2[HP_M], U[HP_N], T2[HP_N], F[HP_N][HP_M];
+  for(size_t j=0;j<HP_M;j++){ W[j]=in_double(-1e6,1e6); W2[j]=in_double(-1e6,1e6); }
+  for(size_t i=0;i<HP_N;i++){ U[i]=in_double(-1e6,1e6); T2[i]=in_double(-1e6,1e6); for(size_t j=0;j<HP_M;j++) F[i][j]=in_double(-1e6,1e6); }
+  double tt=0, pw=0; for(size_t i=0;i<HP_N;i++) tt+=T[i]*T[i]; for(size_t j=0;j<HP_M;j++) pw+=P[j]*W[j];
+#if HP_LEMMA==5
+  for(size_t i=0;i<HP_N;i++){ double s=0; for(size_t j=0;j<HP_M;j++) s+=E[i][j]*W[j]; ASSUME(T[i]==s); }
+  for(size_t j=0;j<HP_M;j++){ double s=0; for(size_t i=0;i<HP_N;i++) s+=E[i][j]*T[i]; ASSUME(s==tt*P[j]); }
+  ASSUME(tt>0);
+  CHECK_EQ(pw, 1.0, "T = E W, E'T = (T'T) P, T'T != 0  =>  P.W = 1");
+#elif HP_LEMMA==6
+  for(size_t j=0;j<HP_M;j++){ double s=0; for(size_t i=0;i<HP_N;i++) s+=E[i][j]*T[i]; ASSUME(s==tt*P[j]); }
+  for(size_t j=0;j<HP_M;j++){ double s=0; for(size_t i=0;i<HP_N;i++) s+=(E[i][j]-T[i]*P[j])*T[i]; CHECK_EQ(s, 0.0, "E'T = (T'T) P  =>  (E - T P')' T = 0"); }
+#elif HP_LEMMA==7
+  for(size_t i=0;i<HP_N;i++){ double s=0; for(size_t j=0;j<HP_M;j++) s+=E[i][j]*W[j]; ASSUME(T[i]==s); }
+  ASSUME(pw==1.0);
+  for(size_t i=0;i<HP_N;i++){ double s=0; for(size_t j=0;j<HP_M;j++) s+=(E[i][j]-T[i]*P[j])*W[j]; CHECK_EQ(s, 0.0, "T = E W and P.W = 1  =>  (E - T P') W = 0"); }
+#elif HP_LEMMA==8
+  for(size_t j=0;j<HP_M;j++){ double s=0; for(size_t i=0;i<HP_N;i++) s+=F[i][j]*T[i]; ASSUME(s==0.0); }
+  for(size_t i=0;i<HP_N;i++){ double s=0; for(size_t j=0;j<HP_M;j++) s+=F[i][j]*W2[j]; ASSUME(T2[i]==s); }
+  { double s=0; for(size_t i=0;i<HP_N;i++) s+=T[i]*T2[i]; CHECK_EQ(s, 0.0, "F'T = 0 and T2 = F W2  =>  T.T2 = 0"); }
+#else
+  for(size_t i=0;i<HP_N;i++){ double s=0; for(size_t j=0;j<HP_M;j++) s+=F[i][j]*W[j]; ASSUME(s==0.0); }
+  { double Rr[HP_M]; for(size_t j=0;j<HP_M;j++){ double s=0; for(size_t i=0;i<HP_N;i++) s+=F[i][j]*U[i]; Rr[j]=s; }
+    for(size_t a=0;a<HP_M;a++)for(size_t b=a+1;b<HP_M;b++) ASSUME(W2[a]*Rr[b]==W2[b]*Rr[a]);
+    double rr=0, w2r=0; for(size_t j=0;j<HP_M;j++){ rr+=Rr[j]*Rr[j]; w2r+=W2[j]*Rr[j]; } ASSUME(w2r>0 || w2r<0);
+    double s=0; for(size_t j=0;j<HP_M;j++) s+=W[j]*W2[j]; CHECK_EQ(s, 0.0, "F W = 0 and W2 parallel to F'U (not orthogonal to it)  =>  W.W2 = 0"); }
 #endif
 #endif
   WITNESS();
